@@ -50,7 +50,7 @@ Ds(dk, label, ax) == [label |-> label, axis |-> ax, maxis |-> <<>>, data |-> Dat
                       simclp |-> <<>>,
                       mcs |-> IF cfg.second /\ dk = 1 THEN <<McMain(dk, ax, cfg.idx), McSecond>> ELSE <<McMain(dk, ax, cfg.idx)>>,
                       gmcs |-> <<>>]
-Case == [link |-> cfg.link, residual_function |-> cfg.fn,
+Case == [link |-> cfg.link, residual_function |-> cfg.fn, tol |-> 0,
          datasets |-> IF cfg.nds = 2 THEN <<Ds(1, "a", cfg.ax1), Ds(2, "ab", cfg.ax2)>> ELSE <<Ds(1, "a", cfg.ax1)>>,
          relations |-> IF cfg.item = "relation" THEN <<[source |-> "a", target |-> "b", param |-> 2, ivs |-> <<cfg.iv>>]>> ELSE <<>>,
          constraints |-> IF cfg.item \in {"zero", "only"} THEN <<[type |-> cfg.item, target |-> "b", ivs |-> <<cfg.iv>>]>> ELSE <<>>,
